@@ -125,12 +125,14 @@ def check_C15(tier_, sd, consts_ok, consts_detail):
     # cross-check extraction against the kernel's evaluator on a sample
     nvm, vmbad = vm_crosscheck(dcases, model, rng, 60)
     # end-to-end sample through whole-file runs: a line is kept in the output iff it is not a directive / continuation
-    e2e_cases, e2e_meta = [], []
+    e2e_projs = []
     sample = [lines[rng.below(len(lines))] for _ in range(150 if tier_ == "quick" else 600)]
     for j, l in enumerate(sample):
         p = Project("e%d" % j); p.files = [("/s.txt.txtpp", ("top\n" + l + "\nzz-end\n").encode())]; p.inputs = ["s.txt"]
         p.pp = ("/s.txt.txtpp", False)
-        e2e_cases.append(p.text()); e2e_meta.append(l)
+        e2e_projs.append(p)
+    complete_oracles(e2e_projs)      # a sampled line may be a `run` directive: its command is evaluated once with sh
+    e2e_cases = [p.text() for p in e2e_projs]
     eimpl = run_impl(e2e_cases); emodel = run_model(e2e_cases)
     def norm_e(o):
         d = parse_obs(o); return (d["verdict"], d["F"].get("/s.txt"))
@@ -816,3 +818,661 @@ def check_C14(tier_, sd, consts_ok, consts_detail):
            "exhaustive": True, "exhaustive_bound": "<= 3 tags, lines of <= %d symbols" % maxlen, "tag_cases": len(cases), "repeats_per_case": 8, "whole_file_cases": len(projs),
            "outcome_distribution": dict(outcomes), "samples": [decode_case(cases[len(cases) // 2]), decode_case(cases[-1])]}
     return {"coverage": cov, "violations": violations}
+
+# ------------------------------------------------------------------ histories: C06, C07, C08, C09, C10
+def built_trees(rng, n, tag, **kw):
+    """generated projects that build successfully, with the (model = implementation) tree after the build"""
+    kw.setdefault("allow_errors", False)
+    projs = gen_batch(rng, n, modes=(0,), **kw)
+    for p in projs:
+        p.inputs = ["."]; p.recursive = True     # process every source: verify/clean then cover what build produced
+    oi, om = both(projs)
+    out = []
+    for p, a, b in zip(projs, oi, om):
+        if a["verdict"] == "ok" and (a["F"], a["verdict"]) == (b["F"], b["verdict"]): out.append((p, a))
+    return out, len(projs)
+
+def tamper(rng, data):
+    k = rng.below(7)
+    if k == 0 or len(data) == 0: return data + b"x", "append"
+    if k == 1: return data[:-1], "truncate-last"
+    if k == 2: return data[1:], "delete-first"
+    if k == 3:
+        i = rng.below(len(data)); return data[:i] + bytes([data[i] ^ 1]) + data[i + 1:], "flip@%d" % i
+    if k == 4:
+        i = rng.below(len(data) + 1); return data[:i] + b"\n" + data[i:], "insert-lf@%d" % i
+    if k == 5: return data[:len(data) // 2], "truncate-half"
+    return b"", "empty"
+
+def check_C06(tier_, sd, consts_ok, consts_detail):
+    rng = Rng(sd).fork("C06")
+    built, ngen = built_trees(rng, 260 if tier_ == "quick" else 2000, "C06")
+    steps = []; meta = []
+    for k, (p, a) in enumerate(built):
+        outs = [gen.out_name(s) for s in p.srcs]
+        r = rng.fork("h%d" % k)
+        for v in range(6 if tier_ == "quick" else 10):
+            q = follow(p, a, "%s.v%d" % (p.id, v)); q.mode = 3
+            fm = dict(q.files); what = "none"; expect_fail = False
+            sel = r.below(5)
+            if v == 0: pass
+            elif sel == 0:   # delete an output
+                t = r.choice(outs); fm.pop(t, None); what = "delete " + t; expect_fail = True
+            elif sel in (1, 2, 3):
+                t = r.choice(outs); new, how = tamper(r, fm[t]); expect_fail = new != fm[t]; fm[t] = new; what = "%s %s" % (how, t)
+            else:
+                if not q.trailing: pass
+                q.trailing = not q.trailing; what = "option flipped"; expect_fail = None   # depends on the sources: decided by a fresh build
+            q.files = sorted(fm.items())
+            # requested inputs: everything, or one file (dependencies are verified too)
+            if r.chance(1, 3):
+                q.inputs = [r.choice(p.srcs).lstrip("/")]; q.recursive = False
+                expect_fail = None if expect_fail else expect_fail
+            q.sched = [r.below(6) for _ in range(30)]
+            steps.append(q); meta.append((k, what, expect_fail))
+    oi, om = both(steps)
+    violations = []; verd = collections.Counter(); nontriv = set()
+    for q, a, b, (k, what, expect_fail) in zip(steps, oi, om, meta):
+        verd[(what.split(" ")[0], a["verdict"])] += 1
+        before = dict(q.files)
+        gp = {gen.out_name(s) for s in built[k][0].srcs}
+        # read-only: no output is created, modified or deleted (bytes and mtime/inode)
+        for t in gp:
+            if a["F"].get(t) != before.get(t) or t in a["U"]:
+                if len(violations) < 5: violations.append(proj_violation("C06", "verify changed or touched the output %s" % t, q, a, b)); break
+        if expect_fail is True and a["verdict"] == "ok" and len(violations) < 5:
+            violations.append(proj_violation("C06", "verify succeeded although an output was tampered with (%s)" % what, q, a, b))
+        if expect_fail is False and what == "none" and a["verdict"] != "ok" and len(violations) < 5:
+            violations.append(proj_violation("C06", "verify failed on an up-to-date tree", q, a, b))
+        if a["verdict"] != b["verdict"] and len(violations) < 5:
+            violations.append(proj_violation("C06", "verify verdict differs from the model (%s)" % what, q, a, b, found=(expect_fail is not None)))
+        if what != "none": nontriv.add((k, what))
+    cov = {"evaluations": len(steps) + ngen, "distinct_nontrivial": len(nontriv),
+           "rule": "generated projects are built, then verified after: nothing / deleting an output / one-byte flip, insertion, deletion, truncation, extension, emptying of an output (requested file or dependency) / flipping the trailing-newline option; "
+                   "observed: verdict, and bytes + mtime + inode of every output before vs after; distinct_nontrivial = distinct (project, tampering)",
+           "built_projects": len(built), "verdicts_by_tampering": {"%s/%s" % k: v for k, v in verd.items()},
+           "samples": [{"tamper": meta[1][1], "verdict": oi[1]["verdict"]}]}
+    return {"coverage": cov, "violations": violations}
+
+def check_C07(tier_, sd, consts_ok, consts_detail):
+    rng = Rng(sd).fork("C07")
+    n = 350 if tier_ == "quick" else 3000
+    # sources may contain erroneous directives: clean must still succeed; build may fail (then only "never runs, removes only generated" is checked)
+    projs = gen_batch(rng, n, modes=(0,), allow_errors=True, markers=True)
+    for p in projs: p.inputs = ["."]; p.recursive = True
+    bi, bm = both(projs)
+    cl = []
+    for p, a in zip(projs, bi):
+        q = follow(p, a, p.id + ".clean"); q.mode = 2; q.cmds = p.cmds; cl.append(q)
+    ci, cm = both(cl, oracle=False)
+    violations = []; nrest = 0; nontriv = set()
+    for p, q, a, c, m in zip(projs, cl, bi, ci, cm):
+        init = dict(p.files)
+        if c["verdict"] != "ok" and len(violations) < 5:
+            violations.append(proj_violation("C07", "clean failed", q, c, m)); continue
+        if c["M"] and len(violations) < 5:
+            violations.append(proj_violation("C07", "clean executed a run command (marker files were written)", q, c, m)); continue
+        after = {k: v for k, v in c["F"].items() if v is not None}
+        if any(k.endswith(".txtpp") or ".txtpp." in k for k in init if k not in after) and len(violations) < 5:
+            violations.append(proj_violation("C07", "clean deleted a .txtpp file", q, c, m)); continue
+        # every non-generated file is byte-identical and untouched
+        for k, v in init.items():
+            if after.get(k) != v:
+                if len(violations) < 5: violations.append(proj_violation("C07", "clean changed or removed the non-generated file %s" % k, q, c, m)); break
+        if a["verdict"] == "ok":
+            nrest += 1
+            if after != init and len(violations) < 5:
+                violations.append(proj_violation("C07", "build then clean did not restore the tree exactly: left over %s" % sorted(set(after) - set(init)), q, c, m))
+            nontriv.add(tuple(sorted(set(k for k, v in a["F"].items() if v is not None) - set(init))))
+        if (c["verdict"], c["F"], c["U"]) != (m["verdict"], m["F"], m["U"]) and len(violations) < 5:
+            violations.append(proj_violation("C07", "clean differs from the model (tree or touched set)", q, c, m, found=False))
+    cov = {"evaluations": 2 * n, "distinct_nontrivial": len(nontriv),
+           "rule": "generated projects (erroneous directives included, counting commands with marker files) are built, then cleaned with the same inputs (whole tree, recursive); "
+                   "checked on the implementation: clean succeeds, writes no marker (runs nothing), deletes no .txtpp, leaves every non-generated file byte-identical, and after a successful build restores the tree exactly; "
+                   "distinct_nontrivial = distinct sets of generated paths that clean had to remove",
+           "successful_build_then_clean": nrest, "input_distribution": dist_of(projs),
+           "samples": [sorted(set(bi[0]["F"]) - set(dict(projs[0].files)))]}
+    return {"coverage": cov, "violations": violations}
+
+JUNK = [b"", b"STALE TEXT\n", b"\xff\xfe\x00junk", "é".encode()[:1], b"x" * 300]
+
+def prestates(rng, p, a, count):
+    """variants of the initial tree with arbitrary regular files planted at the generated paths"""
+    init = dict(p.files); gp = [k for k, v in a["F"].items() if v is not None and k not in init]
+    out = []
+    for v in range(count):
+        q = p.copy(); q.id = "%s.pre%d" % (p.id, v); fm = dict(init); what = []
+        for g in gp:
+            k = rng.below(8)
+            true = a["F"][g]
+            if k == 0: continue
+            if k == 1: fm[g] = true; what.append("exact")
+            elif k == 2 and len(true) > 1:
+                cut = 1 + rng.below(len(true) - 1); fm[g] = true[:cut]; what.append("prefix@%d" % cut)
+            elif k == 3: fm[g] = true + b"more"; what.append("extended")
+            else: fm[g] = JUNK[rng.below(len(JUNK))]; what.append("junk")
+        q.files = sorted(fm.items()); q.what = what
+        out.append(q)
+    return out
+
+def check_C08(tier_, sd, consts_ok, consts_detail):
+    rng = Rng(sd).fork("C08")
+    built, ngen = built_trees(rng, 200 if tier_ == "quick" else 1500, "C08", allow_errors=True)
+    # also projects whose build FAILS: the verdict must not depend on leftovers either
+    failing = gen_batch(rng.fork("f"), 80 if tier_ == "quick" else 600, modes=(0,), allow_errors=True)
+    for p in failing: p.inputs = ["."]; p.recursive = True
+    fi, fm_ = both(failing)
+    base = built + [(p, a) for p, a in zip(failing, fi) if a["verdict"] == "err"]
+    steps = []; meta = []
+    for k, (p, a) in enumerate(base):
+        r = rng.fork("s%d" % k)
+        for q in prestates(r, p, a, 4 if tier_ == "quick" else 8):
+            q.mode = r.choice([0, 0, 1]); q.sched = [r.below(6) for _ in range(30)]
+            steps.append(q); meta.append(k)
+        # building twice equals building once
+        q = follow(p, a, p.id + ".again"); q.mode = 0; q.what = ["rebuild"]; steps.append(q); meta.append(k)
+    oi, om = both(steps)
+    violations = []; kinds = collections.Counter(); nontriv = set()
+    for q, a, b, k in zip(steps, oi, om, meta):
+        p, ref = base[k]
+        kinds.update(q.what)
+        if a["verdict"] != ref["verdict"]:
+            if len(violations) < 5: violations.append(proj_violation("C08", "verdict depends on what was lying at the generated paths (%s): %s vs %s from a clean tree" % (q.what, a["verdict"], ref["verdict"]), q, a, b))
+            continue
+        if ref["verdict"] == "ok":
+            if a["F"] != ref["F"] and len(violations) < 5:
+                diffp = [x for x in set(a["F"]) | set(ref["F"]) if a["F"].get(x) != ref["F"].get(x)]
+                violations.append(proj_violation("C08", "bytes after the build depend on the pre-state (%s) at %s" % (q.what, diffp), q, a, b))
+            nontriv.add((k, tuple(q.what)))
+        if (a["verdict"], a["F"] if a["verdict"] == "ok" else None) != (b["verdict"], b["F"] if b["verdict"] == "ok" else None) and len(violations) < 5:
+            violations.append(proj_violation("C08", "differs from the model", q, a, b, found=False))
+    cov = {"evaluations": len(steps) + ngen + len(failing), "distinct_nontrivial": len(nontriv),
+           "rule": "for generated projects (successful and failing) the build / needed-build is repeated from pre-states with, at every generated path independently: absent, exact content, a proper prefix cut at a random byte, extended content, "
+                   "empty, stale text, non-UTF-8 bytes, half a multi-byte character, 300 bytes; and from the built tree itself; verdict and (on success) the whole tree must equal the build from the clean tree; "
+                   "distinct_nontrivial = distinct (project, pre-state shape)",
+           "projects": len(base), "prestate_kinds": dict(kinds), "samples": [steps[0].what, steps[1].what]}
+    return {"coverage": cov, "violations": violations}
+
+def check_C09(tier_, sd, consts_ok, consts_detail):
+    rng = Rng(sd).fork("C09")
+    built, ngen = built_trees(rng, 220 if tier_ == "quick" else 1800, "C09")
+    steps = []; meta = []
+    for k, (p, a) in enumerate(built):
+        r = rng.fork("s%d" % k)
+        for q in prestates(r, p, a, 4 if tier_ == "quick" else 8):
+            for mode in (1, r.choice([0, 3])):
+                q2 = q.copy(); q2.id += ".m%d" % mode; q2.mode = mode; q2.what = q.what; q2.sched = [r.below(6) for _ in range(30)]
+                steps.append(q2); meta.append(k)
+        # source edit: a stale tree must be brought up to date by --needed
+        q = follow(p, a, p.id + ".edit"); fm = dict(q.files); s = r.choice(p.srcs); fm[s] = fm[s] + b"edited tail line\n"; q.files = sorted(fm.items()); q.mode = 1; q.what = ["source-edit"]
+        steps.append(q); meta.append(k)
+    oi, om = both(steps)
+    violations = []; nontriv = set(); untouched = 0; rewritten = 0
+    for q, a, b, k in zip(steps, oi, om, meta):
+        p, ref = built[k]
+        pre = dict(q.files); init = dict(p.files)
+        gp = [x for x in ref["F"] if ref["F"][x] is not None and x not in init]
+        outs = {gen.out_name(s) for s in p.srcs}
+        if q.what == ["source-edit"]:
+            if a["verdict"] != b["verdict"] or (a["verdict"] == "ok" and a["F"] != b["F"]):
+                if len(violations) < 5: violations.append(proj_violation("C09", "--needed after a source edit differs from the model", q, a, b, found=False))
+            continue
+        if q.mode == 1:
+            if a["verdict"] != "ok" or a["F"] != ref["F"]:
+                if len(violations) < 5: violations.append(proj_violation("C09", "--needed does not equal a normal build (pre-state %s)" % q.what, q, a, b))
+                continue
+            nontriv.add((k, tuple(q.what)))
+        for g in gp:
+            correct = pre.get(g) == ref["F"][g]
+            is_out = g in outs
+            # no mode rewrites a temp file whose content is already correct; --needed writes no output that is already correct
+            if correct and (q.mode == 1 or not is_out) and a["verdict"] == "ok":
+                if g in a["U"]:
+                    if len(violations) < 5: violations.append(proj_violation("C09", "%s was already correct but was rewritten (mtime/inode changed) in mode %d" % (g, q.mode), q, a, b))
+                else: untouched += 1
+            elif not correct and q.mode in (0, 1) and a["verdict"] == "ok":
+                rewritten += 1
+                if a["F"].get(g) != ref["F"][g] and len(violations) < 5:
+                    violations.append(proj_violation("C09", "stale %s was not brought up to date" % g, q, a, b))
+        if (a["verdict"], a["U"]) != (b["verdict"], b["U"]) and a["verdict"] == "ok" and len(violations) < 5:
+            violations.append(proj_violation("C09", "set of rewritten files differs from the model", q, a, b, found=False))
+    cov = {"evaluations": len(steps) + ngen, "distinct_nontrivial": len(nontriv),
+           "rule": "generated projects x pre-states of the generated paths (absent / exact / prefix / extended / junk incl. non-UTF-8) x modes {needed, build, verify}; all mtimes pre-set to a sentinel; "
+                   "checked on the implementation: needed = build byte for byte, correct outputs (needed) and correct temp files (all modes) keep inode and mtime, stale ones are updated; plus source edits; "
+                   "distinct_nontrivial = distinct (project, pre-state shape) under --needed",
+           "files_left_untouched": untouched, "files_rewritten": rewritten, "samples": [steps[0].what]}
+    return {"coverage": cov, "violations": violations}
+
+DECOYS = [("/decoy.txt", b"decoy\n"), ("/a.txt.bak", b"bak\n"), ("/sub/txtpp", b"not a source\n"), ("/sub/notes.txtp", b"near miss\n"),
+          ("/other/z.txtpp.d/keep", b"inside a dir named like a source\n"), ("/a_t0.tmp.orig", b"orig\n"), ("/.hidden", b"h\n")]
+
+def check_C10(tier_, sd, consts_ok, consts_detail):
+    rng = Rng(sd).fork("C10")
+    n = 500 if tier_ == "quick" else 4000
+    projs = gen_batch(rng, n, modes=(0, 1, 2, 3), allow_errors=True)
+    for p in projs:
+        have = {f for f, _ in p.files}
+        for f, c in DECOYS:
+            if f not in have: p.files.append((f, c))
+    # half of them start from a built tree so that verify / clean / needed have something to act on
+    first = [p for k, p in enumerate(projs) if k % 2 == 0]
+    pre = [p.copy() for p in first]
+    for q in pre: q.mode = 0; q.id += ".pre"; q.inputs = ["."]; q.recursive = True
+    pi, pm = both(pre)
+    for p, a in zip(first, pi):
+        p.files, p.dirs = tree_of(a)
+    oi, om = both(projs)
+    violations = []; modes = collections.Counter(); nontriv = set()
+    for p, a, b in zip(projs, oi, om):
+        modes[(["build", "needed", "clean", "verify"][p.mode], a["verdict"])] += 1
+        before = dict(p.files)
+        srcs = set(p.srcs)
+        allowed = {gen.out_name(s) for s in p.srcs} | {k for k in set(a["F"]) | set(before) if re.search(r"/[a-f]_t\d\.tmp$", k)}
+        for t in a["U"]:
+            if t not in allowed:
+                if len(violations) < 5: violations.append(proj_violation("C10", "txtpp created, modified or deleted %s, which is neither an output of a processed source nor a temp target" % t, p, a, b)); break
+        for k, v in before.items():
+            if k not in allowed and a["F"].get(k) != v:
+                if len(violations) < 5: violations.append(proj_violation("C10", "the bytes of %s changed" % k, p, a, b)); break
+        if p.mode == 2 and any(k not in before for k, v in a["F"].items() if v is not None) and len(violations) < 5:
+            violations.append(proj_violation("C10", "clean created a file", p, a, b))
+        if p.mode == 3 and any(t in {gen.out_name(s) for s in p.srcs} for t in a["U"]) and len(violations) < 5:
+            violations.append(proj_violation("C10", "verify touched an output", p, a, b))
+        if a["U"] != b["U"] and len(violations) < 5:
+            violations.append(proj_violation("C10", "set of touched paths differs from the model: impl %s, model %s" % (a["U"], b["U"]), p, a, b, found=False))
+        if a["U"]: nontriv.add((p.mode, tuple(a["U"])))
+    cov = {"evaluations": len(projs) + len(pre), "distinct_nontrivial": len(nontriv),
+           "rule": "generated projects (successful and failing) x modes {build, needed, clean, verify} x input selections x recursive flag, half of them on an already built tree, with decoy files next to sources, in sub-directories and at near-miss names; "
+                   "full-tree snapshot (bytes, inode, mtime) before/after: every touched path must be an output of a source of the project or a temp target, every other file keeps its bytes; clean creates nothing; verify touches no output; "
+                   "the touched set must equal the model's event log; distinct_nontrivial = distinct (mode, touched set)",
+           "mode_verdict_distribution": {"%s/%s" % k: v for k, v in modes.items()}, "decoys": [d for d, _ in DECOYS],
+           "samples": [{"mode": projs[3].mode, "touched": oi[3]["U"]}]}
+    return {"coverage": cov, "violations": violations}
+
+# ------------------------------------------------------------------ C11 inputs and names
+C11_NAMES = ["a.txtpp", "b.txt.txtpp", "c.txtpp.md", "plain.txt", "txtpp", ".txtpp", "e.txtpp.b.c", "my.file.txtpp.md", "x.y.txtpp", "f.txtp", "g.txtpp.bak.old"]
+
+def check_C11(tier_, sd, consts_ok, consts_detail):
+    rng = Rng(sd).fork("C11")
+    # (1) the name functions, exhaustively over short token strings
+    toks = ["a", "b", ".", "txtpp", "txt", "é"]
+    names = []
+    for n in range(1, 6 if tier_ == "quick" else 7):
+        for combo in itertools.product(toks, repeat=n):
+            s = "".join(combo)
+            # D7: ordinary names; a name starting with `..` has the stem `.` or `..`, which std::path treats as a directory reference
+            if s in (".", "..") or "/" in s or s.startswith(".."): continue
+            names.append(s)
+    names = sorted(set(names))
+    ncases = ["N " + hx(x) for x in names]
+    ni = run_impl(ncases); nm = run_model(ncases)
+    nbad = diff_cases(ncases, ni, nm)
+    # documented shapes, checked on the implementation directly
+    shape_bad = []
+    for foo in ["foo", "a", "é"]:
+        for ext in ["ext", "md", "c"]:
+            for (src, exp) in [("%s.%s.txtpp" % (foo, ext), "%s.%s" % (foo, ext)), ("%s.txtpp.%s" % (foo, ext), "%s.%s" % (foo, ext)), ("%s.txtpp" % foo, foo)]:
+                o = run_impl(["N " + hx(src)])[0].split(" ")
+                if o[1] != "true" or o[2] == "-" or unhx(o[2]).decode() != exp: shape_bad.append((src, exp, o))
+    # (2) trees and input lists
+    n = 500 if tier_ == "quick" else 4000
+    projs = []
+    for k in range(n):
+        r = rng.fork("t%d" % k)
+        p = Project("in%d" % k)
+        dirs = ["/", "/sub", "/sub/deep", "/d.txtpp"]      # a directory named like a source
+        placed = []
+        for d in dirs:
+            for nm_ in C11_NAMES:
+                if r.chance(1, 4):
+                    path = (d.rstrip("/") + "/" + nm_)
+                    p.files.append((path, ("content of %s\n" % path).encode())); placed.append(path)
+        p.dirs = ["/sub", "/sub/deep", "/d.txtpp", "/emptydir"]
+        p.base = r.choice(["/", "/", "/sub"])
+        p.recursive = r.chance(1, 2)
+        cands = [".", "sub", "sub/deep", "./sub/../sub", "d.txtpp", "emptydir", "missing.txt", "missing.txtpp", "plain.txt", "nosuchdir/x.txtpp"]
+        for f in placed:
+            rel = f.lstrip("/")
+            if p.base == "/sub":
+                rel = rel[4:] if rel.startswith("sub/") else "../" + rel
+            cands += [rel, "./" + rel]
+            if ".txtpp" in f:
+                o = run_model_name(f)
+                if o: cands.append((o.lstrip("/") if p.base == "/" else (o.lstrip("/")[4:] if o.startswith("/sub/") else "../" + o.lstrip("/"))))
+        p.inputs = [r.choice(cands) for _ in range(1 + r.below(4))]
+        p.sched = [r.below(6) for _ in range(40)]
+        projs.append(p)
+    oi, om = both(projs, oracle=False)
+    violations = []; verd = collections.Counter(); nontriv = set()
+    for p, a, b in zip(projs, oi, om):
+        verd[a["verdict"]] += 1
+        init = dict(p.files)
+        made = sorted(k for k, v in a["F"].items() if v is not None and k not in init)
+        if (a["verdict"], a["F"]) != (b["verdict"], b["F"]) and len(violations) < 5:
+            violations.append(proj_violation("C11", "the set of processed sources / the names of the outputs / the verdict differ from the specification (Run.resolve_inputs, scan_dir, Path.remove_txtpp)", p, a, b))
+        if made: nontriv.add((tuple(p.inputs), tuple(made)))
+    for kk in nbad[:5]:
+        violations.append({"found": True, "replay": {"property": "C11", "what": "is_txtpp_file / remove_txtpp differ from the specification (props/C11.v)", "case": ncases[kk],
+                           "name": names[kk], "implementation": ni[kk], "model(spec)": nm[kk]}})
+    for sb in shape_bad[:3]:
+        violations.append({"found": True, "replay": {"property": "C11", "what": "documented output name shape violated", "source": sb[0], "expected_output": sb[1], "implementation": sb[2]}})
+    cov = {"evaluations": len(ncases) + len(projs), "distinct_nontrivial": len(nontriv) + len(set(nm)),
+           "rule": "(1) every name of <= %d tokens over {a, b, ., txtpp, txt, é} through is_txtpp_file / remove_txtpp (exhaustive); the three documented shapes on the implementation; "
+                   "(2) random trees (names incl. txtpp, .txtpp, dotted stems, near misses, a directory named d.txtpp, an empty directory) x input lists (directories, source names, output names, ./ and ../ forms, duplicates, missing targets) "
+                   "x recursion on/off x base directory = root or a sub-directory: verdict and exactly which outputs exist afterwards; distinct_nontrivial = distinct (inputs, outputs produced) + distinct name observations" % (5 if tier_ == "quick" else 6),
+           "exhaustive": True, "exhaustive_bound": "name functions: names of <= %d tokens" % (5 if tier_ == "quick" else 6),
+           "name_cases": len(ncases), "tree_cases": len(projs), "verdicts": dict(verd),
+           "samples": [{"inputs": projs[2].inputs, "base": projs[2].base, "recursive": projs[2].recursive, "outputs": sorted(k for k, v in oi[2]["F"].items() if v is not None and k not in dict(projs[2].files))}]}
+    return {"coverage": cov, "violations": violations}
+
+_NAME_CACHE = {}
+def run_model_name(path):
+    """output path of a source path according to the model (None if not a source)"""
+    if path not in _NAME_CACHE:
+        o = run_model(["N " + hx(path.lstrip("/"))])[0].split(" ")
+        _NAME_CACHE[path] = None if o[2] == "-" else "/" + unhx(o[2]).decode()
+    return _NAME_CACHE[path]
+
+# ------------------------------------------------------------------ C17 run contract
+def norm_join(base_dir, rel):
+    parts = [x for x in base_dir.split("/") if x]
+    for c in rel.split("/"):
+        if c in ("", "."): continue
+        if c == "..":
+            if parts: parts.pop()
+        else: parts.append(c)
+    return "/" + "/".join(parts)
+
+def check_C17(tier_, sd, consts_ok, consts_detail):
+    rng = Rng(sd).fork("C17")
+    projs = []; meta = []
+    depths = ["/r.txt.txtpp", "/sub/r.txt.txtpp", "/sub/deep/r.txtpp", "/sub/deep/er/r.txtpp.md"]
+    k = 0
+    for src in depths:
+        for base in ["/", "/sub", "/sub/deep", "/other"]:
+            for cwd in [None, "/", "/decoy", "/sub"]:
+                for variant in range(3 if tier_ == "quick" else 8):
+                    r = rng.fork("c%d" % k); k += 1
+                    p = Project("rc%d" % k)
+                    status_fail = (variant == 2)
+                    body = ["-TXTPP#run pwd -P", '=TXTPP#run printf %s "$TXTPP_FILE"', "",
+                            "+TXTPP#run printf '%s|' \"a", "+b   c", "+d\"", "",
+                            "~TXTPP#run printf 'multi'", "~  ;  printf 'line'", ""]
+                    if status_fail: body += ["-TXTPP#run exit %d" % (1 + r.below(3))]
+                    p.files = [(src, ("\n".join(body) + "\n").encode())]
+                    # decoy directories with the same relative names under the process cwd
+                    p.dirs = ["/decoy/sub/deep/er", "/decoy/deep/er", "/decoy/er", "/other", "/sub/deep/er"]
+                    p.base = base; p.cwd = cwd
+                    sd_ = src.rsplit("/", 1)[0] or "/"
+                    # the input is named relative to the base directory
+                    bparts = [x for x in base.split("/") if x]; sparts = [x for x in src.split("/") if x]
+                    i = 0
+                    while i < len(bparts) and i < len(sparts) - 1 and bparts[i] == sparts[i]: i += 1
+                    p.inputs = ["/".join([".."] * (len(bparts) - i) + sparts[i:])]
+                    p.sched = [0] * 6
+                    projs.append(p); meta.append((src, base, cwd, status_fail))
+    oi, om = both(projs)
+    violations = []; known = collections.Counter(); nontriv = set(); ok_file = 0
+    for p, a, b, (src, base, cwd, fail) in zip(projs, oi, om, meta):
+        out = gen.out_name(src)
+        srcdir = src.rsplit("/", 1)[0] or "/"
+        if fail:
+            if a["verdict"] != "err" and len(violations) < 5:
+                violations.append(proj_violation("C17", "a command with a non-zero exit status did not fail the build", p, a, b))
+            continue
+        if a["verdict"] != "ok":
+            if len(violations) < 5: violations.append(proj_violation("C17", "run directives failed (working directory not found?)", p, a, b))
+            continue
+        text = (a["F"].get(out) or b"").decode("utf-8", "replace")
+        lines_ = text.split("\n")
+        # line 0: pwd -P ; line 1: TXTPP_FILE (no newline, joined with the empty line) ; then 'a b   c d|' (one argument, single spaces) ; then 'multiline'
+        want_pwd = "@R@" + ("" if srcdir == "/" else srcdir)
+        if lines_[0] != want_pwd:
+            if len(violations) < 5: violations.append(proj_violation("C17", "the command did not run in the directory of the source: pwd = %r, expected %r" % (lines_[0], want_pwd), p, a, b))
+            continue
+        tf = lines_[1]
+        if "a b   c d|" not in text or "multi ; printf 'line'" in text or "multiline" not in text:
+            if len(violations) < 5: violations.append(proj_violation("C17", "argument lines were not joined by single spaces into one shell argument", p, a, b)); continue
+        # TXTPP_FILE designates the source: absolute, or relative to the command's working directory
+        if tf == "":
+            if len(violations) < 5: violations.append(proj_violation("C17", "TXTPP_FILE is empty in the child", p, a, b)); continue
+        designated = (tf[3:] or "/") if tf.startswith("@R@") else norm_join(srcdir, tf)
+        nested = (srcdir != base) and (src.startswith(base.rstrip("/") + "/"))
+        if designated != src:
+            if nested:
+                known["TXTPP_FILE=%s from cwd %s" % (tf, srcdir)] += 1     # known finding: class txtpp_file_nested
+            elif len(violations) < 5:
+                violations.append(proj_violation("C17", "TXTPP_FILE (%r) does not designate the source %s from the command's directory" % (tf, src), p, a, b))
+        else: ok_file += 1
+        if (a["verdict"], a["F"]) != (b["verdict"], b["F"]) and len(violations) < 5:
+            violations.append(proj_violation("C17", "outputs differ from the model (Pp.exec_directive DRun: cwd = parent of the source, TXTPP_FILE = display path)", p, a, b, found=False))
+        nontriv.add((src, base, cwd))
+    # the binary refuses to start when TXTPP_FILE is set, so commands cannot recurse into txtpp
+    cli = []
+    import tempfile
+    d = tempfile.mkdtemp(prefix="vp-c17-", dir=os.environ.get("VP_TMP", "/dev/shm"))
+    try:
+        open(os.path.join(d, "a.txt.txtpp"), "w").write("x\n-TXTPP#run %s -q b.txt\n\n" % CLI)
+        open(os.path.join(d, "b.txt.txtpp"), "w").write("b\n")
+        r1 = subprocess.run([CLI, "-q", "b.txt"], cwd=d, env=dict(os.environ, TXTPP_FILE="something"), stdout=subprocess.DEVNULL, stderr=subprocess.DEVNULL)
+        made1 = os.path.exists(os.path.join(d, "b.txt"))
+        r2 = subprocess.run([CLI, "-q", "b.txt"], cwd=d, env=dict(os.environ, TXTPP_FILE=""), stdout=subprocess.DEVNULL, stderr=subprocess.DEVNULL)
+        made2 = os.path.exists(os.path.join(d, "b.txt"))
+        os.remove(os.path.join(d, "b.txt")) if made2 else None
+        r3 = subprocess.run([CLI, "-q", "a.txt"], cwd=d, env={k: v for k, v in os.environ.items() if k != "TXTPP_FILE"}, stdout=subprocess.DEVNULL, stderr=subprocess.DEVNULL)
+        made3 = os.path.exists(os.path.join(d, "b.txt"))
+        cli = [r1.returncode, made1, r2.returncode, made2, r3.returncode, made3]
+        if not (r1.returncode == 1 and not made1):
+            violations.append({"found": True, "replay": {"property": "C17", "what": "the binary started although TXTPP_FILE was set", "exit": r1.returncode, "output_created": made1,
+                               "how": "TXTPP_FILE=something txtpp -q b.txt in a directory with b.txt.txtpp"}})
+        if not (r2.returncode == 0 and made2):
+            violations.append({"found": True, "replay": {"property": "C17", "what": "the binary refused to run with an EMPTY TXTPP_FILE", "exit": r2.returncode}})
+        if not (r3.returncode != 0 and not made3):
+            violations.append({"found": True, "replay": {"property": "C17", "what": "a run directive could recurse into txtpp", "exit": r3.returncode, "inner_output_created": made3}})
+    finally:
+        shutil.rmtree(d, ignore_errors=True)
+    kn = []
+    if known:
+        kn.append("class=txtpp_file_nested TXTPP_FILE is the base-relative path and does not designate the source from the command's directory for sources below (not directly in) the base directory: "
+                  "%d cases, e.g. %s" % (sum(known.values()), sorted(known)[0]))
+    cov = {"evaluations": len(projs) + 3, "distinct_nontrivial": len(nontriv),
+           "rule": "sources at depth 0..3 x base directory {root, /sub, /sub/deep, unrelated /other} x process cwd {unchanged, root, a decoy directory containing the same relative directory names, /sub} "
+                   "(library entry point through the harness; base given relative to the cwd when possible) x {ok, non-zero exit}; each source runs pwd -P, prints TXTPP_FILE, a 3-line command and a 2-line command; "
+                   "checked on the implementation: working directory, joining by single spaces, TXTPP_FILE designates the source, non-zero status fails; CLI: TXTPP_FILE guard and no recursion; "
+                   "distinct_nontrivial = distinct (source, base, cwd) with all run directives succeeding",
+           "txtpp_file_designates_source": ok_file, "known_finding_cases": sum(known.values()), "cli_guard": cli,
+           "samples": [{"source": meta[5][0], "base": meta[5][1], "cwd": meta[5][2], "output": short(oi[5]["F"].get(gen.out_name(meta[5][0])))}]}
+    return {"coverage": cov, "violations": violations, "known": kn}
+check_C17.needs_cli = True
+
+# ------------------------------------------------------------------ C18 robustness
+def rand_bytes_source(r):
+    k = r.below(6)
+    pieces = [b"TXTPP#", b"-TXTPP#run ", b"// TXTPP#write ", b"TXTPP#tag T", b"TXTPP#include ", b"TXTPP#temp ", b"T", b"\n", b"\r\n", b"\r", b"\x00", b"\xff", b"\xc3", b"\xe2\x80", b"\xe2\x80\x80",
+              "é".encode(), "　".encode(), b" ", b"\t", b"x", b"-", b"inc.txt", b"t.tmp", b"printf x", b"\xf0\x9f\x98\x80", b"a" * 70]
+    if k == 0: return bytes(r.below(256) for _ in range(r.below(120)))
+    if k == 1: return b"".join(r.choice(pieces) for _ in range(r.below(40)))
+    if k == 2: return b"x" * (1 + r.below(3)) * 20000 + b"\n" + r.choice(pieces)     # a huge line
+    if k == 3: return b"\n" * r.below(50) + r.choice(pieces)
+    if k == 4:   # valid directive lines followed by continuation candidates cut inside multi-byte characters
+        pre = r.choice(["é ".encode(), "　x".encode(), b"\xc3\xa9\xc3\xa9", b"// "])
+        return b"  " + pre + b"TXTPP#run printf x\n  " + pre[:r.below(len(pre) + 1)] + r.choice([b"", b"\xa9", b"\x80 y", "é".encode()]) + b"\n" + r.choice(pieces)
+    g = gen.SrcGen(r, includes=["inc.txt", "missing"], temps=["t.tmp", "u.tmp"], allow_errors=True)
+    return g.build(r.below(8))
+
+def check_C18(tier_, sd, consts_ok, consts_detail):
+    rng = Rng(sd).fork("C18")
+    n = 1500 if tier_ == "quick" else 15000
+    projs = []
+    for k in range(n):
+        r = rng.fork("r%d" % k)
+        p = Project("rb%d" % k)
+        p.files = [("/s.txt.txtpp", rand_bytes_source(r)), ("/inc.txt", r.choice([b"inc\n", b"\xff\xfe", b"", b"a\r\nb"])),
+                   ("/sub/t.txtpp", rand_bytes_source(r))]
+        if r.chance(1, 3): p.files.append(("/s.txt", rand_bytes_source(r)))      # an existing generated file
+        if r.chance(1, 4): p.files.append(("/t.tmp", bytes(r.below(256) for _ in range(r.below(20)))))
+        p.mode = r.below(4); p.recursive = r.chance(1, 2); p.trailing = r.chance(1, 2)
+        p.threads = r.choice([0, 1, 1, 2, 4, 16])
+        p.inputs = [r.choice([".", "s.txt", "s.txt.txtpp", "sub", "sub/t", "nothing"]) for _ in range(1 + r.below(2))]
+        p.sched = None if r.chance(1, 2) else [r.below(4) for _ in range(12)]
+        projs.append(p)
+    env = dict(os.environ, VP_WATCHDOG_S="30")
+    outs = [parse_obs(x) for x in run_impl([p.text() for p in projs], env=env)]
+    violations = []; cls = collections.Counter(); nontriv = set()
+    for p, a in zip(projs, outs):
+        cls[a["verdict"]] += 1
+        if a["verdict"] not in ("ok", "err"):
+            if len(violations) < 5: violations.append(proj_violation("C18", "the run ended with %s instead of success or a reported error" % a["verdict"], p, a, None))
+        else: nontriv.add((a["verdict"], p.mode, hashlib.sha256(p.files[0][1]).hexdigest()[:8]))
+    # the model never panics either (theorems of props/C18.v); cross-check the verdict class on valid-UTF-8, controlled cases
+    # (the extracted model uses unary naturals for lengths: very long lines are left to the implementation side only)
+    mp = [p for p in projs if p.sched is not None and p.threads != 0 and all(len(c) < 4000 for _, c in p.files)]
+    mcases = [p.text() for p in mp]
+    complete_oracles(mp)
+    mo = [parse_obs(x) for x in run_model([p.text() for p in mp])]
+    mpanic = [p for p, o in zip(mp, mo) if o["verdict"] not in ("ok", "err")]
+    for p in mpanic[:2]:
+        violations.append({"found": False, "replay": {"property": "C18", "broken": "the model itself reports a panic/fuel exhaustion: theorem pp_run_no_panic / run_loop_no_panic no longer describes it", "project": p.to_json()}})
+    # the binary: option values including zero threads
+    cli = []
+    import tempfile
+    d = tempfile.mkdtemp(prefix="vp-c18-", dir=os.environ.get("VP_TMP", "/dev/shm"))
+    try:
+        open(os.path.join(d, "a.txt.txtpp"), "wb").write(b"x\n-TXTPP#run printf y\n\n")
+        for args in (["-j", "0"], ["-j", "1"], ["-j", "16"], ["verify", "-j", "0"], ["clean", "-j", "0"], ["-N", "-j", "0"], ["-s", "", "-j", "2"], ["-r", "-j", "3"]):
+            try:
+                r = subprocess.run([CLI, "-q"] + args, cwd=d, stdout=subprocess.DEVNULL, stderr=subprocess.DEVNULL, timeout=30)
+                rc = r.returncode
+            except subprocess.TimeoutExpired:
+                rc = "timeout"
+            cli.append((" ".join(args), rc))
+            if "0" in args and args[args.index("0") - 1] == "-j" and rc == 0:
+                pass    # accepting zero threads (e.g. treating it as one) would also satisfy the property
+            if rc not in (0, 1, 2):
+                violations.append({"found": True, "replay": {"property": "C18", "what": "txtpp %s ended with %s (panic, abort or hang) instead of exit 0/1" % (" ".join(args), rc),
+                                   "how": "in a directory containing a.txt.txtpp"}})
+    finally:
+        shutil.rmtree(d, ignore_errors=True)
+    cov = {"evaluations": n + len(cli), "distinct_nontrivial": len(nontriv),
+           "rule": "robustness stream OUTSIDE the documented domain: random bytes, invalid UTF-8, NUL, lone CR, huge and empty lines, directive lines whose continuation candidates are cut inside multi-byte characters, grammar-aware sources; "
+                   "pre-existing generated files with arbitrary bytes; four modes; 0-16 threads; recursive on/off; controlled and free scheduling; any-thread panic hook + 30 s watchdog in the harness; CLI with -j 0 in every mode; "
+                   "observation = {ok, err, panic, hang}; distinct_nontrivial = distinct (verdict, mode, source hash)",
+           "verdict_classes": dict(cls), "cli_runs": cli, "model_cross_checked": len(mp),
+           "samples": [repr(projs[1].files[0][1][:80])]}
+    return {"coverage": cov, "violations": violations}
+check_C18.needs_cli = True
+
+# ------------------------------------------------------------------ C04 no false success
+def check_C04(tier_, sd, consts_ok, consts_detail):
+    rng = Rng(sd).fork("C04")
+    names = NAMES4
+    shapes = [[(0, 1), (1, 2), (2, 3)], [(0, 1), (0, 2), (1, 3), (2, 3)], [(0, 1), (2, 3)], []]
+    faults = ["bad-directive", "failing-command", "missing-include", "include-directory", "output-is-directory", "temp-is-directory", "temp-txtpp", "tag-unused", "tag-twice", "invalid-utf8", "verify-mismatch"]
+    projs = []; meta = []
+    k = 0
+    for edges in shapes:
+        for pos in range(4):
+            for fault in faults:
+                for rep in range(1 if tier_ == "quick" else 3):
+                    r = rng.fork("f%d" % k); k += 1
+                    p = digraph_project("fl%d" % k, names, edges, [0, 2] if edges == [(0, 1), (2, 3)] else ([0] if edges else [0, 1, 2, 3]))
+                    fm = dict(p.files); src = names[pos]; body = fm[src]
+                    tag = src.split("/")[-1].split(".")[0]
+                    inj = {"bad-directive": b"TXTPP#run no prefix on a multi-line directive\n",
+                           "failing-command": b"%TXTPP#run exit 3\n\n",
+                           "missing-include": b"%TXTPP#include no_such_file.txt\n",
+                           "include-directory": b"%TXTPP#include .\n",
+                           "temp-is-directory": b"%TXTPP#temp adir\n%x\n\n",
+                           "temp-txtpp": b"%TXTPP#temp gen.txtpp\n%x\n\n",
+                           "tag-unused": b"%TXTPP#tag NEVERUSED\n%TXTPP#write v\n\n",
+                           "tag-twice": b"%TXTPP#tag T1\n%TXTPP#tag T2\n",
+                           "invalid-utf8": b"bad \xff\xfe line\n"}.get(fault)
+                    mode = 0
+                    if inj is not None:
+                        # inject before the last line of the source
+                        lines_ = body.split(b"\n"); body2 = b"\n".join(lines_[:-2]) + b"\n" + inj + b"\n".join(lines_[-2:])
+                        fm[src] = body2
+                    if fault == "temp-is-directory": p.dirs.append(src.rsplit("/", 1)[0] + "/adir")
+                    if fault == "output-is-directory":
+                        o = gen.out_name(src); fm.pop(o, None); p.dirs.append(o)
+                        p.inputs = [names[i].lstrip("/") for i in p.input_idx]     # name sources: the output name now designates a directory
+                    p.files = sorted(fm.items())
+                    required = reachable_from(p.input_idx, edges)
+                    p.sched = [r.below(5) for _ in range(20)]
+                    if fault == "verify-mismatch":
+                        p.step2 = True
+                    projs.append(p); meta.append((fault, pos, pos in required, edges))
+    # verify-mismatch: build first (model tree), tamper the output of `pos`, then verify
+    firsts = [p for p in projs if getattr(p, "step2", False)]
+    fi, fm_ = both(firsts)
+    for p, a in zip(firsts, fi):
+        idx = projs.index(p); fault, pos, req, edges = meta[idx]
+        t = follow(p, a); fmm = dict(t.files); o = gen.out_name(names[pos])
+        if o in fmm: fmm[o] = fmm[o] + b"tampered"
+        p.files = sorted(fmm.items()); p.dirs = t.dirs; p.mode = 3
+    oi, om = both(projs)
+    violations = []; dist = collections.Counter(); nontriv = set()
+    for p, a, b, (fault, pos, req, edges) in zip(projs, oi, om, meta):
+        dist[(fault, "required" if req else "not-required", a["verdict"])] += 1
+        if a["verdict"] in ("panic", "hang"):
+            if len(violations) < 5: violations.append(proj_violation("C04", "run ended with " + a["verdict"], p, a, b)); continue
+        if req and a["verdict"] == "ok":
+            if len(violations) < 5: violations.append(proj_violation("C04", "FALSE SUCCESS: fault `%s` in required file %s but the run reported success" % (fault, names[pos]), p, a, b))
+        if not req and a["verdict"] != "ok" and fault != "verify-mismatch":
+            if len(violations) < 5: violations.append(proj_violation("C04", "a fault in a file that is not required failed the run (%s in %s)" % (fault, names[pos]), p, a, b, found=False))
+        if a["verdict"] == "ok" and p.mode == 0:
+            exp = seq_build(names, edges)
+            for i in reachable_from(p.input_idx, edges):
+                if i != pos and a["F"].get(gen.out_name(names[i])) != exp.get(i) and not (fault in ("tag-unused",) ):
+                    pass
+        if a["verdict"] != b["verdict"] and len(violations) < 5:
+            violations.append(proj_violation("C04", "verdict differs from the model (fault %s at %s)" % (fault, names[pos]), p, a, b, found=(req and a["verdict"] == "ok")))
+        nontriv.add((fault, pos, tuple(map(tuple, edges))))
+    # OS-level faults on the real binary: write/flush failure (disk full), output size limit
+    cli = []
+    import tempfile
+    d = tempfile.mkdtemp(prefix="vp-c04-", dir=os.environ.get("VP_TMP", "/dev/shm"))
+    try:
+        big = ("line of text number %d\n" * 1)
+        # (--needed onto /dev/full is deliberately absent: reading that device back never ends - special files are outside every model here)
+        for case in ("devfull-small", "devfull-large", "fsize-limit", "readonly-dir"):
+            cd = os.path.join(d, case); os.makedirs(cd)
+            nlines = 5 if case == "devfull-small" else 40000
+            open(os.path.join(cd, "a.txt.txtpp"), "w").write("".join("line of text number %d\n" % i for i in range(nlines)))
+            args = [CLI, "-q", "a.txt"]; pre = None; exp_fail = True
+            if case in ("devfull-small", "devfull-large"):
+                os.symlink("/dev/full", os.path.join(cd, "a.txt"))
+            elif case == "fsize-limit":
+                args = ["sh", "-c", "trap '' XFSZ; ulimit -f 8; exec %s -q a.txt" % CLI]
+            elif case == "readonly-dir":
+                os.chmod(cd, 0o555)
+                exp_fail = os.geteuid() != 0     # root ignores directory permissions
+            try:
+                r = subprocess.run(args, cwd=cd, stdout=subprocess.DEVNULL, stderr=subprocess.DEVNULL, timeout=60)
+                rc = r.returncode
+            except subprocess.TimeoutExpired:
+                rc = "timeout"
+            if case == "readonly-dir": os.chmod(cd, 0o755)
+            cli.append((case, rc))
+            complete = False
+            outp = os.path.join(cd, "a.txt")
+            if os.path.isfile(outp) and not os.path.islink(outp):      # never read through the /dev/full link
+                try:
+                    complete = open(outp, "rb").read(64 << 20).count(b"\n") == nlines
+                except OSError: pass
+            if rc == 0 and not complete and exp_fail:
+                violations.append({"found": True, "replay": {"property": "C04", "what": "FALSE SUCCESS: exit status 0 although the output could not be written completely (%s)" % case,
+                                   "how": "a.txt.txtpp with %d lines; output path a.txt -> /dev/full, or `ulimit -f 8` with SIGXFSZ ignored" % nlines}})
+            if rc not in (0, 1):
+                violations.append({"found": True, "replay": {"property": "C04", "what": "abnormal end (%s) under fault %s" % (rc, case)}})
+    finally:
+        subprocess.run(["chmod", "-R", "u+w", d]); shutil.rmtree(d, ignore_errors=True)
+    cov = {"evaluations": len(projs) + len(firsts) + len(cli), "distinct_nontrivial": len(nontriv),
+           "rule": "fault matrix: {prefix-less multi-line directive, failing command, missing include, include of a directory, output path occupied by a directory, temp target is a directory, temp target ending in .txtpp, "
+                   "unused tag, tag while listening, invalid UTF-8 line, verify mismatch} x position {root, middle, leaf, unrelated file} x graph shape {chain, diamond, two components, independent} x random controlled schedule, "
+                   "through the library; the binary under real OS faults (output -> /dev/full small and large, RLIMIT_FSIZE with SIGXFSZ ignored, read-only directory); "
+                   "checked: a fault in a required file => error verdict / non-zero exit; distinct_nontrivial = distinct (fault, position, graph)",
+           "fault_verdict_distribution": {"%s/%s/%s" % k_: v for k_, v in sorted(dist.items())}, "cli_faults": cli,
+           "samples": [{"fault": meta[7][0], "position": names[meta[7][1]], "required": meta[7][2], "verdict": oi[7]["verdict"]}]}
+    return {"coverage": cov, "violations": violations}
+check_C04.needs_cli = True
